@@ -27,13 +27,15 @@ THEOREMS = [f'Gnpy.Select.{t}' for t in (
     'capable_if_any_capable', 'nf_minimal_among_acceptable', 'nf_minimal_among_capable', 'fallback_spec',
     'reduction_spec', 'reduction_zero_if_capable', 'select_none_iff', 'argminNf_first',
     'preselect_sound', 'preselect_sound_partial', 'preselect_old_leaves_permitted_set', 'gain_fallback_spec',
-    'mem_selectionLibrary', 'nodeRestrictionsMulti_permitted', 'auto_selection_main')]
-PARTIAL = ['preselect_sound_partial (multiband): proved: preselection never leaves the permitted multiband entries '
-           '(preselect_sound, repaired behaviour of fix F10) and every entry surviving a band lists a model the '
-           'filter accepted for that band. Not modelled, only monitored on designed topologies: the final per-band '
-           'choice inside a Multiband_amplifier and find_type_variety (intersection giving the node type_variety); '
-           'full statement: the node type_variety is a permitted multiband entry whose members are the per-band '
-           'choices, each capable and quietest for its band']
+    'mem_selectionLibrary', 'nodeRestrictionsMulti_permitted', 'auto_selection_main', 'findTypeVarietyE_mem',
+    'multiband_choice_sound_if_single_entry', 'multiband_result_unpermitted_iff', 'per_band_mix_witness',
+    'band_pick_spec', 'multiband_band_picks')]
+PARTIAL = ['multiband (open finding multiband-per-band-choices-form-unpermitted-type): the whole Multiband_amplifier '
+           'branch is modelled (multibandDesign) and under exact correspondence; proved: the node type is a permitted '
+           'entry listing all picks when one permitted entry lists them (multiband_choice_sound_if_single_entry), and '
+           'it is outside the permitted set IFF no permitted entry lists all picks (multiband_result_unpermitted_iff, '
+           'witness per_band_mix_witness). Full statement, false for the code as it is: the node type is always a '
+           'permitted entry']
 RULE = ('cases from one PRNG: (a) 50% select_edfa on a generated library of 1-12 single-band models (variable/fixed '
         'gain, OpenROADM, dual stage, Raman flags, overlapping gain ranges, bands), restriction list empty or a subset, '
         'gain/power targets uniform or placed on a threshold of some model (power attribute 0, gain_min attribute 0, '
@@ -51,8 +53,9 @@ MODEL_SCOPE = ('modelled: select_edfa, filter_edfa_list_based_on_targets, edfa_n
                'set_one_amplifier, preselect_multiband_amps + find_type_varieties. Taken from the implementation as '
                'input: gain/power targets (compute_gain_power_and_tilt_target is C09), design bands (C07/C15). Out of '
                'scope: libraries in which two multiband entries list identical members (ambiguous, PYTHONHASHSEED '
-               'dependent outcome). Monitored but not modelled: per-band choice + find_type_variety inside a '
-               'Multiband_amplifier (open finding multiband-per-band-choices-form-unpermitted-type)')
+               'dependent outcome). The Multiband_amplifier branch of set_egress_amplifier without user type '
+               '(restrictions -> preselection -> per-band select_edfa -> find_type_variety) is modelled as '
+               'multibandDesign; a user-typed Multiband_amplifier is only monitored')
 
 
 # ---------------------------------------------------------------------------------------------------------------------
@@ -817,9 +820,57 @@ def run_mtopo(case, drv):
         model = list(m['ok']) if 'ok' in m else m['error']
         if isinstance(model, list) or len(pc['targets']) == len(pc['bands']) or pc['out'] != 'ConfigurationError':
             res.cmp_exact('preselect_multiband_amps', pc['out'], model, uid=pc['uid'])
-    # ---------------- monitor
+    # ---------------- correspondence: the whole auto-design of each Multiband_amplifier node (permitted entries ->
+    # preselection -> per-band picks -> node type) against Gnpy.Select.multibandDesign
     rmap = {r['uid']: r for r in restr_calls}
     specs = {it['uid']: it for d in ('ab', 'ba') for it in case['lines'][d] if it['el'] == 'mb'}
+    by0 = nets.by_uid(net)
+    for pc in pre_calls:
+        uid = pc['uid']
+        r = rmap.get(uid)
+        node = by0.get(uid)
+        if r is None or node is None or 'targets' not in pc:
+            continue
+        sels = [x for x in sel_calls if x['uid'] == uid]
+        nb = len(pc['bands'])
+        tgs = list(pc['targets']) + [(0.0, 0.0)] * (nb - len(pc['targets']))
+        ctx = {'type_variety': r['tv'] or '', 'variety_list': r['vl'], 'prev_booster': r['booster'],
+               'next_preamp': r['preamp']}
+        m = drv.ask('c10.multidesign', lib=lib, ctx=ctx, ext=f2b(case['ext']),
+                    raman_allowed=bool(sels[0]['raman_allowed']) if sels else False,
+                    targets=[{'band': b, 'gain': f2b(t[0]), 'power': f2b(t[1])} for b, t in zip(pc['bands'], tgs)])
+        tv = node.params.type_variety
+        picks = [a.params.type_variety for a in node.amplifiers.values()]
+        exact = True
+        for i, bd in enumerate(m.get('bands', [])):
+            if bd['pick'] is None or i >= len(sels) or sels[i]['out'] is None:
+                continue
+            impl_nf = {}
+            for x in bd['acceptable']:
+                try:
+                    impl_nf[x['variety']] = float(gnet.edfa_nf(sels[i]['gain'], eq['Edfa'][x['variety']]))
+                except Exception:  # noqa: BLE001
+                    pass
+            tied, ex = nf_tie(bd['acceptable'], bd['pick'], impl_nf)
+            if not ex:
+                exact = False
+                res.cmp_exact('multiband.pick_among_nf_ties', sels[i]['out'][0] in tied, True, chosen=sels[i]['out'][0],
+                              tied=tied, uid=uid)
+        if not exact:
+            res.ill += 1
+            continue
+        if not tv:
+            res.cmp_exact('multiband_design.outcome', 'ConfigurationError', m.get('error', 'designed'), uid=uid)
+        elif 'error' in m:
+            res.cmp_exact('multiband_design.outcome', 'designed', m['error'], uid=uid)
+        else:
+            res.cmp_exact('multiband_design.picks', picks, m['picks'], uid=uid)
+            if len(m['candidates']) == 1:
+                res.cmp_exact('multiband_design.type_variety', tv, m['candidates'][0], uid=uid)
+            else:
+                res.cmp_exact('multiband_design.type_variety_among_candidates', tv in m['candidates'], True, uid=uid)
+            res.stats['mtopo_nodes_modelled'] += 1
+    # ---------------- monitor
 
     def permitted_multi(uid, node):
         it = specs[uid]
